@@ -37,6 +37,9 @@ POOL = ["H2O", "NH3", "CH4", "HF", "CO", "HCN", "CH2O", "N2", "C2H2", "CO2", "CH
         "HOOH", "N2O", "CH3NH2", "HNO", "BeH2", "BH3", "HCl", "H2S", "PH3", "SiH4", "CH3Cl", "SO2", "LiF", "AlH3",
         "C2H6", "CH3SH", "H2", "LiH", "NaCl", "MgH2", "Cl2", "F2", "BF3", "SiH3Cl"]
 METHODS = ["AM1", "PM3", "MNDO", "PM6_SP"]
+PH3_WITNESS = {"Z": [15, 1, 1, 1], "X": [[0.0807, 0.0324, 0.0499], [1.3413, -0.0732, -0.7826], [-0.6767, 0.9427, -0.7632],
+                                          [-0.5061, -1.0650, -0.7599]]}
+DISTINCT_E = 1.0e-3   # eV: a converged result this far (and > 100 x its bound) from the reference is another SCF solution
 
 
 def _conv_tag(conv):
@@ -100,6 +103,16 @@ def gen_cases(tier, seed):
                       "sigma": float(_pick(g, [0.02, 0.05, 0.08])), "cands": _cands(g, tier)})
     # expensive first
     cases.sort(key=lambda c: -len(gen.molecule(c["mol"])[0]))
+    # reported witness (C20 builder): MNDO PH3, Pulay from a cold start ends on a saddle point 37 eV above the minimum
+    ksa = [3, dict(KSA)]
+    cases.insert(0, {"mol": "PH3", "method": "MNDO", "gseed": 0, "sigma": 0.0, "explicit": dict(PH3_WITNESS),
+                     "cands": [{"conv": cv, "eps": e, "sp2": None, "uhf": False, "start": st}
+                               for cv, e, st in [([2], 1e-6, "cold"), ([2], 1e-8, "cold"), ([2], 1e-10, "cold"),
+                                                 ([1], 1e-8, "cold"), ([0, 0.3], 1e-8, "cold"), ([0, 0.0], 1e-8, "cold"),
+                                                 (ksa, 1e-8, "cold"), ([2], 1e-8, "perturbed"), ([2], 1e-8, "nonidem")]]
+                              + [{"conv": [1], "eps": 1e-8, "sp2": 1e-7, "uhf": False, "start": "cold"},
+                                 {"conv": [1], "eps": 1e-8, "sp2": None, "uhf": True, "start": "cold"},
+                                 {"conv": [2], "eps": 1e-8, "sp2": None, "uhf": False, "start": "sequence"}]})
     return cases
 
 
@@ -140,8 +153,11 @@ def run_case(case):
 
     Z, X, q, m = gen.molecule(case["mol"])
     g0 = np.random.default_rng(case["gseed"])
-    Xd = gen.distort(X, g0, sigma=case["sigma"])
-    Xd = Xd @ gen.generic_rotation(Xd, g0).T
+    if case.get("explicit"):
+        Z, Xd = list(case["explicit"]["Z"]), np.array(case["explicit"]["X"], float)
+    else:
+        Xd = gen.distort(X, g0, sigma=case["sigma"])
+        Xd = Xd @ gen.generic_rotation(Xd, g0).T
     method = case["method"]
     nat = len(Z)
     norb = sum(4 if z > 1 else 1 for z in Z)
@@ -152,14 +168,43 @@ def run_case(case):
     mon = {"reference_runs": 0, "candidates_run": 0, "candidates_compared": 0, "candidates_not_converged": 0,
            "sp2_candidates_compared": 0, "uhf_candidates_compared": 0, "restart_candidates_compared": 0,
            "ksa_candidates_compared": 0, "monotonicity_pairs": 0, "sequence_points_compared": 0,
-           "candidates_raised": 0, "failpoints_fired": 0, "candidates_nonfinite": 0, "get_error_calls": 0}
+           "candidates_raised": 0, "failpoints_fired": 0, "candidates_nonfinite": 0, "get_error_calls": 0,
+           "reference_paths_agree": 0, "reference_paths_disagree": 0, "distinct_solutions_judged": 0,
+           "distinct_solutions_both_stable": 0, "distinct_solutions_undecided": 0, "stability_analyses": 0}
     viol, margins, cells = [], {}, []
     refs = {}
 
+    ref_mix = {"conv": [0, 0.3], "eps": 1e-11, "sp2": None, "uhf": False, "start": "cold"}
+    ref_pul = {"conv": [2], "eps": 1e-11, "sp2": None, "uhf": False, "start": "cold"}
+    pending = []   # distinct-solution events found while building references: (cand, out_high, out_low, where)
+
     def reference(k):
-        if k not in refs:
-            refs[k] = run.single_point(Z, Xd + k * delta, ref_sett, charges=q, mult=m)
+        """reference at x_k: Pulay+diag, eps 1e-11, cold -- cross-checked against a second, independent path
+        (fixed mixing 0.3, eps 1e-11, cold).  When the two paths end on different SCF solutions the lower one is
+        the reference (re-converged by a warm-started Pulay run) and the event is judged by `distinct`."""
+        if k in refs:
+            return refs[k]
+        Xk = Xd + k * delta
+        rp = run.single_point(Z, Xk, ref_sett, charges=q, mult=m)
+        rm = run.single_point(Z, Xk, run.settings(method, eps=1e-11, converger=(0, 0.3)), charges=q, mult=m)
+        mon["reference_runs"] += 2
+        okp, okm = not bool(np.any(rp["notconverged"])), not bool(np.any(rm["notconverged"]))
+        if okp and okm and abs(float(rp["Etot"][0]) - float(rm["Etot"][0])) <= DISTINCT_E:
+            mon["reference_paths_agree"] += 1
+            refs[k] = rp
+        elif okp and okm:
+            mon["reference_paths_disagree"] += 1
+            hi, lo, chi = (rp, rm, ref_pul) if rp["Etot"][0] > rm["Etot"][0] else (rm, rp, ref_mix)
+            warm = run.single_point(Z, Xk, ref_sett, charges=q, mult=m, P0=np.array(lo["dm"], copy=True))
             mon["reference_runs"] += 1
+            if not bool(np.any(warm["notconverged"])) and abs(float(warm["Etot"][0]) - float(lo["Etot"][0])) <= 1e-6:
+                lo = warm
+            refs[k] = lo
+            pending.append((chi, hi, lo, k))
+        elif okp or okm:
+            refs[k] = rp if okp else rm
+        else:
+            refs[k] = rp
         return refs[k]
 
     ref0 = reference(0)
@@ -232,6 +277,60 @@ def run_case(case):
             elog.uninstall()
             mon["get_error_calls"] += elog.calls
 
+    def stability(out, Xk):
+        """-> ('unstable'|'stable'|'undecided', info): is the converged closed-shell solution a minimum?"""
+        dm = np.asarray(out["dm"])
+        if dm.ndim == 3:
+            try:
+                st = scfmon.r1_singlet_stability(method, Z, Xk, dm[0])
+            except Exception:
+                st = None
+            if st is not None:
+                mon["stability_analyses"] += 1
+                lam, g_ = st
+                return ("unstable" if lam < -1e-3 else ("stable" if lam > 1e-3 else "undecided")), \
+                    {"how": "lowest eigenvalue of the singlet stability matrix A+B (reference model R1)", "lambda_min_eV": lam, "gap_eV": g_}
+            # no reference model for this method: does a damped SCF map, restarted next to the solution, leave it?
+            gS = np.random.default_rng(case["gseed"] + 23)
+            Nn = gS.normal(0.0, 0.01, dm.shape)
+            Nn = 0.5 * (Nn + np.swapaxes(Nn, -1, -2)) * Mreal
+            try:
+                o2 = run.single_point(Z, Xk, run.settings(method, eps=1e-9, converger=(0, 0.3)), charges=q, mult=m, P0=dm + Nn)
+            except Exception:
+                return "undecided", {"how": "restart test raised"}
+            mon["stability_analyses"] += 1
+            if not bool(np.any(o2["notconverged"])) and float(o2["Etot"][0]) < float(out["Etot"][0]) - DISTINCT_E:
+                return "unstable", {"how": "damped SCF restarted 0.01 away from the solution left it", "E_after": float(o2["Etot"][0])}
+            return "undecided", {"how": "damped SCF restarted 0.01 away from the solution stayed"}
+        return "undecided", {"how": "unrestricted solution: no stability analysis available"}
+
+    def distinct(c, out, ref, where):
+        """a converged result that is a different SCF solution than the reference: violation iff the higher of the
+        two is a saddle point while the lower is a minimum (the molecule then has ONE stable closed-shell solution
+        among those reached, and a solver path left it); two minima => outside the property's precondition."""
+        Xk = Xd + where * delta
+        mon["distinct_solutions_judged"] += 1
+        hi_is_out = float(out["Etot"][0]) > float(ref["Etot"][0])
+        hi, lo = (out, ref) if hi_is_out else (ref, out)
+        s_hi, i_hi = stability(hi, Xk)
+        s_lo, i_lo = stability(lo, Xk)
+        info = {"candidate": c, "where": where, "E_candidate": float(out["Etot"][0]), "E_reference": float(ref["Etot"][0]),
+                "gap_candidate": float(np.asarray(out["gap"]).reshape(-1)[0]), "gap_reference": float(np.asarray(ref["gap"]).reshape(-1)[0]),
+                "higher_solution": dict(i_hi, verdict=s_hi), "lower_solution": dict(i_lo, verdict=s_lo),
+                "species": Z, "coords": Xk.tolist(), "charge": q}
+        if s_hi == "unstable" and s_lo == "stable" or (s_hi == "unstable" and s_lo == "undecided" and i_lo.get("how", "").startswith("damped")):
+            if hi_is_out:
+                mech = "pulay-cold-start-converges-to-saddle" if (c["conv"][0] == 2 and c["start"] == "cold" and not c.get("sp2")) else None
+                viol.append({"clause": "converged-to-unstable-scf-solution", "mech": mech, "detail": info})
+            else:
+                # the reference itself sits on the saddle (both reference paths did): report it against the reference solver
+                viol.append({"clause": "reference-on-unstable-scf-solution", "mech": None, "detail": info})
+        elif s_hi == "stable" and s_lo == "stable":
+            mon["distinct_solutions_both_stable"] += 1
+        else:
+            mon["distinct_solutions_undecided"] += 1
+        return info
+
     def judge(c, out, ref, where, errs_store=None):
         rho = state["elog"].contraction() if state.get("elog") is not None else 0.0
         ee, A, B = _bounds(c, rho, width)
@@ -249,6 +348,10 @@ def run_case(case):
                                     "charge": q, "Etot": repr(out["Etot"])}})
             return None
         err = _errors(out, ref, norb)
+        _, _, B0 = _bounds(c, 0.98, width)
+        if err["E"] > max(DISTINCT_E, 100.0 * B0["E"]):
+            distinct(c, out, ref, where)
+            return None
         mon["candidates_compared"] += 1
         if c.get("sp2"):
             mon["sp2_candidates_compared"] += 1
@@ -278,6 +381,9 @@ def run_case(case):
         return err
 
     mono = {}
+    for chi, hi, lo, k in pending:
+        distinct(chi, hi, lo, k)
+    del pending[:]
     for ci, c in enumerate(case["cands"]):
         if c["start"] == "sequence":
             Pprev = None
@@ -302,6 +408,8 @@ def run_case(case):
             key = (repr(c["conv"]), c.get("sp2"), bool(c.get("uhf")), c["start"])
             mono.setdefault(key, {})[c["eps"]] = (err, c)
 
+    for chi, hi, lo, k in pending:      # reference paths that disagreed at a sequence point
+        distinct(chi, hi, lo, k)
     # monotonicity in eps: for eps2 < eps1, err(eps2) <= max(err(eps1), bound(eps2))
     for key, d in mono.items():
         es = sorted(d, reverse=True)
